@@ -30,7 +30,7 @@ COQ_EXTRA = ['Gen.C02HashSpec_ok']
 THEOREMS = [
     'C02_encode_injective', 'C02_encode_injective_gen', 'C02_lang_injective', 'C02_single_change',
     'C02_boundary_shift', 'C02_split_merge', 'C02_name_value_shift', 'C02_list_move',
-    'C02_driver_mode_table', 'C02_driver_mode_separates', 'C02_key_iff',
+    'C02_driver_mode_table', 'C02_driver_mode_separates', 'C02_env_reaches_keys', 'C02_key_iff',
     'C02_pp_encode_injective', 'C02_pp_encode_injective_canon', 'C02_pp_time_salt_injective', 'C02_pp_single_change', 'C02_pp_boundary_shift', 'C02_pp_name_value_shift',
     'C02_pp_list_move', 'C02_pp_key_iff', 'C02_pp_env_covers_main', 'C02_required_vars_hashed',
     'C02_lang_pp_boundary_refuted', 'C02_extra_pp_boundary_refuted', 'C02_pp_lang_path_boundary_refuted',
@@ -146,6 +146,10 @@ def side_conditions(s):
     res.append(('side-condition:env_main subset of env_pp (S16)', not miss,
                 'in hash_key\'s CACHED_ENV_VARS but not in the preprocessor-level key\'s: %s' % miss if miss else ''))
     res.append(('side-condition:time_gate', bool(s['time_gate']), ''))
+    pf = s.get('env_prefilter')
+    lost = [] if pf is None else [n.decode('latin-1') for n in s['allow_main'] + s['allow_pp'] if n not in pf]
+    res.append(('side-condition:prefilter_ok (generate_hash_key passes every allow-listed variable on to the key functions)', not lost,
+                'filtered out before the key functions see them: %s' % sorted(set(lost)) if lost else ''))
     bad = ['%s (%s) gets plusplus()=%s' % (k, n, pp) for k, n, pp, _ in s.get('drivers', []) if bool(pp) != k.endswith('++')]
     handled = [d[0] for d in s.get('drivers', [])]
     bad += ['the detection script prints %s but no match arm handles it' % i for i in s.get('script_ids', [])
@@ -536,7 +540,7 @@ def known_ids():
 
 
 def gen_key(rng, tier):
-    n = 4000 if tier == 'quick' else 40000
+    n = 3000 if tier == 'quick' else 40000
     out = [group(rng, gen_req_c(rng), 'c', 26) for _ in range(n)]
     if {'C02-S10b', 'C02-S10c'} <= known_ids():
         for _ in range(20 if tier == 'quick' else 200):
@@ -545,7 +549,7 @@ def gen_key(rng, tier):
 
 
 def gen_ppkey(rng, tier):
-    n = 1200 if tier == 'quick' else 10000
+    n = 1000 if tier == 'quick' else 10000
     out = []
     for i in range(n):
         root = ('%s/%d' % (ROOT, i)).encode()
